@@ -348,11 +348,16 @@ type pcase struct {
 func checkPool(c pcase) *mc.Failure {
 	return mc.GuardT("pool", c, func() *mc.Failure {
 		for i := 0; i < 4; i++ { // several rounds so that the pooled scanner is likely reused
-			shell.Split(string(c.First))
+			first, _ := shell.Split(string(c.First))
+			keep := append([]string(nil), first...)
 			want, wok, _ := shellh.Split(string(c.Second))
 			got, ok := shell.Split(string(c.Second))
 			if !eqs(got, texts(want)) || ok != wok {
 				return mc.Failf(0, "Split(%q) right after Split(%q) = %q, %v; reference %q, %v", c.Second, c.First, got, ok, texts(want), wok)
+			}
+			// the slice returned by the first call belongs to the caller
+			if !eqs(first, keep) {
+				return mc.Failf(0, "the result of Split(%q) was %q and reads %q after a later Split(%q): the two results share storage", c.First, keep, first, c.Second)
 			}
 		}
 		return nil
